@@ -36,6 +36,14 @@ const (
 	EXEC_DEF
 )
 
+// The parser collects the statements of a program back to front; this restores the order in which they were written
+func reverseStatements(statements []unexpandedProcessOrFunction) []unexpandedProcessOrFunction {
+	for i, j := 0, len(statements)-1; i < j; i, j = i+1, j-1 {
+		statements[i], statements[j] = statements[j], statements[i]
+	}
+	return statements
+}
+
 // Process that is currently being parsed and yet to become a process.Process
 type incompleteProcess struct {
 	Body      process.Form
